@@ -3,10 +3,10 @@
 From Coq Require Import List NArith ZArith.
 Require Extraction.
 Require Import ExtrOcamlBasic.
-From Mos Require Import model.SourceMap model.Listing model.Emit spec.ListingSpec.
+From Mos Require Import model.SourceMap model.Listing model.Emit spec.ListingSpec model.ListingFiles.
 
 Extraction "../extract/gen/c11.ml"
   Z.add Z.mul Z.sub Z.opp Z.div Z.modulo Z.of_N Z.to_N Z.of_nat Z.to_nat N.add N.mul
   to_listing to_listing_file address_to_offset line_col_to_offsets move_offsets look_up_span num_lines
   run view_segments seg_new
-  spec_rows spec_line row_cells.
+  spec_rows spec_line row_cells Known_listing_name_collision.
